@@ -192,7 +192,8 @@ pub fn run(run: Run) -> ! {
     while kfss.len() < nspecs {
         let (n, c) = if i % 3 == 2 { (2usize, c2) } else { (3usize, c3) };
         let idx = (i * 7919 + 1234 * (i % 5)) % c;
-        if let Some(k) = decode_t(n, &GRID5, idx, 1, 3, false) {
+        // easing alphabet alternates between (custom, built-in) and two different customs
+        if let Some(k) = decode_t(n, &GRID5, idx, 1, if i % 2 == 0 { 3 } else { 2 }, false) {
             if k.iter().any(|x| x.a.is_some() || x.k.is_some()) {
                 kfss.push(k);
             }
